@@ -498,7 +498,10 @@ def _hammer_check(res, ops, impl, pid):
             res.evaluations += 1
             res.dist["first-contact-rounds"] += 1
             d = dict(x.split("=", 1) for x in im.split(" ") if "=" in x)
-            if not im.startswith("first ") or "unusable" not in d:
+            if d.get("deadlock") == "1":
+                res.violation("oracle", "%s: first-contact creates of a never-seen subscriber in flight together did not all return within 60 s (deadlock)" % pid,
+                              [op, "# impl: " + im[:200]])
+            elif not im.startswith("first ") or "unusable" not in d:
                 res.violation("oracle", "%s: the process crashed while first-contact creates were in flight (%s)" % (pid, im[:60]), [op, "# impl: " + im[:200]])
             elif not d["unusable"].startswith("0"):
                 res.violation("oracle", "%s: an accepted and a refused create of a never-seen subscriber in flight together: %s of the %s sessions whose "
@@ -528,7 +531,7 @@ def _hammer_check(res, ops, impl, pid):
             res.violation("oracle", "%s: the process crashed while the requests of roles %s were in flight (%s)" % (pid, t[2], im[:60]), [op, "# impl: " + im[:200]])
             continue
         if d["done"] != "1":
-            res.violation("oracle", "%s: concurrent requests of one subscriber (roles %s) did not all return within 90 s (deadlock)" % (pid, t[2]), [op, "# impl: " + im])
+            res.violation("oracle", "%s: concurrent requests of one subscriber (roles %s) made no progress for 60 s (deadlock)" % (pid, t[2]), [op, "# impl: " + im])
             continue
         ok = True
         if not d.get("dup", "0").startswith("0"):
